@@ -144,7 +144,7 @@ def generic_state(system, seed):
 
 
 def _repo_origin(e):
-    """innermost library frame and innermost frame inside cardillo/constraints of an exception (None if the
+    """innermost library frame and outermost frame inside cardillo/constraints of an exception (None if the
     exception did not pass through library code)"""
     import os
     import traceback
@@ -156,8 +156,8 @@ def _repo_origin(e):
         if fn.startswith(repo):
             rel = fn[len(repo):]
             inner = f"{rel}:{fr.name}"
-            if rel.startswith("cardillo/constraints/"):
-                origin = f"{rel}:{fr.name}"
+            if rel.startswith("cardillo/constraints/") and origin is None:
+                origin = f"{rel}:{fr.name}"  # outermost constraint-level routine the exception passed through
     if inner is None:
         return None
     return {"origin": origin or inner, "innermost": inner}
